@@ -59,6 +59,7 @@ const (
 	ptSlot   = "queue.after-slot-check"
 	ptRemove = "queue.before-remove"
 	ptDone   = "queue.after-done"
+	ptRepush = "queue.before-repush"
 	poll     = 100 * time.Microsecond
 )
 
@@ -246,6 +247,7 @@ type sim struct {
 	hold    bool
 	ready   bool
 	drained bool
+	held    bool // the loop stands at the gate before a re-push
 	reqs    []*reqRec
 	gateQ   []*reqRec
 	handled int
@@ -550,7 +552,7 @@ func sortedIDs(rs []*reqRec, bad []string) string {
 	return joinOr(append(out, bad...))
 }
 
-func (s *sim) tick() string {
+func (s *sim) tick(holdAtRepush bool) string {
 	s.now = s.now.Add(100 * time.Millisecond)
 	s.mock.Set(s.now)
 	// watcher phase: everything past its TTL on the mock clock must be rejected (real-time wait)
@@ -581,14 +583,13 @@ func (s *sim) tick() string {
 	s.w.mu.Lock()
 	s.w.events = nil
 	s.w.mu.Unlock()
+	if holdAtRepush {
+		s.c.Gate(ptRepush, true)
+	}
 	s.lc.Fire()
-	okp := s.pump(func() bool { return s.lc.Parked() }, 5*time.Second, func(r *reqRec) {
-		if r.verdict == "allowed" {
-			s.w.log("v:" + strconv.Itoa(r.id))
-		} else {
-			s.w.log("v!" + r.verdict + ":" + strconv.Itoa(r.id))
-		}
-	})
+	okp := s.pump(func() bool { return s.lc.Parked() || s.c.Waiting(ptRepush) > 0 }, 5*time.Second, s.onAllowed)
+	s.c.Gate(ptRepush, false)
+	s.held = s.c.Waiting(ptRepush) > 0
 	s.w.mu.Lock()
 	evs := append([]string(nil), s.w.events...)
 	s.w.mu.Unlock()
@@ -598,7 +599,45 @@ func (s *sim) tick() string {
 	if !s.awaitRemovals() {
 		evs = append(evs, "stuck-removal")
 	}
-	return "to=" + sortedIDs(to, bad) + " log=" + joinOr(evs)
+	ans := "to=" + sortedIDs(to, bad) + " log=" + joinOr(evs)
+	if holdAtRepush {
+		h := "-"
+		if s.held {
+			// the request the loop is about to push again: the one the quota just refused
+			for i := len(evs) - 1; i >= 0; i-- {
+				if strings.HasPrefix(evs[i], "x:") {
+					h = evs[i][2:]
+					break
+				}
+			}
+		}
+		ans += " held=" + h
+	}
+	return ans
+}
+
+func (s *sim) onAllowed(r *reqRec) {
+	if r.verdict == "allowed" {
+		s.w.log("v:" + strconv.Itoa(r.id))
+	} else {
+		s.w.log("v!" + r.verdict + ":" + strconv.Itoa(r.id))
+	}
+}
+
+func (s *sim) tickRelease() string {
+	s.w.mu.Lock()
+	s.w.events = nil
+	s.w.mu.Unlock()
+	s.held = false
+	s.c.Release(ptRepush)
+	okp := s.pump(func() bool { return s.lc.Parked() }, 5*time.Second, s.onAllowed)
+	s.w.mu.Lock()
+	evs := append([]string(nil), s.w.events...)
+	s.w.mu.Unlock()
+	if !okp {
+		evs = append(evs, "stuck")
+	}
+	return "log=" + joinOr(evs)
 }
 
 // idle: real time passes (at least one TTL watcher scan: its sleeps never exceed the TTL), the mock
@@ -828,7 +867,7 @@ func runCase(ops []string, emit func(string)) {
 			}
 			continue
 		}
-		if !s.ready || s.drained {
+		if !s.ready || s.drained || (s.held && w[0] != "arrive" && w[0] != "tick-release" && w[0] != "idle") {
 			emit("bad-op")
 			continue
 		}
@@ -843,7 +882,19 @@ func runCase(ops []string, emit func(string)) {
 			if s.real || len(w) != 1 {
 				emit("bad-op")
 			} else {
-				emit(s.tick())
+				emit(s.tick(false))
+			}
+		case "tick-hold":
+			if s.real || len(w) != 1 {
+				emit("bad-op")
+			} else {
+				emit(s.tick(true))
+			}
+		case "tick-release":
+			if !s.held || len(w) != 1 {
+				emit("bad-op")
+			} else {
+				emit(s.tickRelease())
 			}
 		case "idle":
 			emit(s.idle(w))
@@ -986,9 +1037,12 @@ func execCase(c proto.Case, o *proto.Out) []string {
 			if a != "to=-" {
 				o.Count("idle-with-timeouts")
 			}
-		case strings.HasPrefix(a, "to="):
+		case strings.HasPrefix(a, "to=") || strings.HasPrefix(a, "log="):
 			aw := strings.Fields(a)
-			if t, _ := proto.KV(aw, "to"); t != "-" {
+			if h, ok := proto.KV(aw, "held"); ok && h != "-" {
+				o.Count("loop-held-before-repush")
+			}
+			if t, ok := proto.KV(aw, "to"); ok && t != "-" {
 				n := len(strings.Split(t, ","))
 				refused += n
 				o.Count("tick-with-timeouts")
@@ -1135,10 +1189,14 @@ func genHold(r *prng.R, withDrain bool) []string {
 		ops = append(ops, fmt.Sprintf("arrive id=%d prio=%s", id, genPrio(r, 2)))
 		id++
 	}
-	for t := r.Range(0, 3); t > 0; t-- {
+	lo := 0
+	if withDrain {
+		lo = 1 // a verdict before shutdown: with removals held this is the F06c class
+	}
+	for t := r.Range(lo, 3); t > 0; t-- {
 		ops = append(ops, "tick")
 	}
-	if r.Chance(40) {
+	if r.Chance(30) {
 		ops = append(ops, "flush-remove")
 	}
 	ops = append(ops, fmt.Sprintf("arrive id=%d prio=0", id))
@@ -1165,6 +1223,34 @@ func genHoldExpiry(r *prng.R) []string {
 	}
 	if r.Bool() {
 		ops = append(ops, "flush-remove", "arrive id=2 prio=0", "tick")
+	}
+	return ops
+}
+
+// arrivals while the loop stands between a refused attempt and the re-push (gate before re-push):
+// the refused request is out of the heap and in state `processing` meanwhile
+func genRepush(r *prng.R) []string {
+	ops := []string{genCfg(r, r.Range(2, 4), 2, 1, r.Range(1, 2))}
+	id := 0
+	for k := r.Range(2, 3); k > 0; k-- {
+		ops = append(ops, fmt.Sprintf("arrive id=%d prio=%s", id, genPrio(r, 2)))
+		id++
+	}
+	ops = append(ops, "tick-hold")
+	for k := r.Range(1, 2); k > 0; k-- {
+		ops = append(ops, fmt.Sprintf("arrive id=%d prio=%s", id, genPrio(r, 2)))
+		id++
+	}
+	if r.Chance(30) {
+		ops = append(ops, "idle ms=5", "tick") // tick is refused while held
+	}
+	ops = append(ops, "tick-release")
+	for t := r.Range(2, 12); t > 0; t-- {
+		if r.Chance(15) {
+			ops = append(ops, "tick-hold", "tick-release")
+		} else {
+			ops = append(ops, "tick")
+		}
 	}
 	return ops
 }
@@ -1269,9 +1355,9 @@ func malformed(r *prng.R) []string {
 }
 
 func gen(r *prng.R, f proto.Flags, emit func(proto.Case)) {
-	nShort, nLong, nOverlap, nHold, nDrain, nWall, nBad, nBound, nFifo, nHoldExp := 26, 12, 6, 6, 5, 1, 4, 2, 6, 2
+	nShort, nLong, nOverlap, nHold, nDrain, nWall, nBad, nBound, nFifo, nHoldExp, nRepush := 26, 12, 6, 6, 5, 1, 4, 2, 6, 2, 6
 	if f.Tier == "thorough" {
-		nShort, nLong, nOverlap, nHold, nDrain, nWall, nBad, nBound, nFifo, nHoldExp = 260, 100, 50, 50, 40, 4, 10, 12, 40, 12
+		nShort, nLong, nOverlap, nHold, nDrain, nWall, nBad, nBound, nFifo, nHoldExp, nRepush = 600, 200, 120, 120, 80, 6, 10, 20, 100, 25, 120
 	}
 	id := 0
 	add := func(prefix string, ops []string) {
@@ -1298,6 +1384,13 @@ func gen(r *prng.R, f proto.Flags, emit func(proto.Case)) {
 		}
 		for k := 0; k < nFifo; k++ {
 			add("f", genFifo(r.Fork()))
+		}
+		for k := 0; k < nRepush; k++ {
+			add("r", genRepush(r.Fork()))
+		}
+		if b > 0 {
+			// widened search (budget > 1): only the classes that cost no real time are multiplied
+			continue
 		}
 		for k := 0; k < nLong; k++ {
 			add("l", genSequential(r.Fork(), true))
